@@ -282,8 +282,8 @@ class Evaluator(object):
                                       for x in (sl.lower, sl.upper, sl.step))
         v = self.ev(sl, path)
         if isinstance(v, list):
-            return tuple(v)
-        return v
+            return tuple(_norm_index_value(x) for x in v)
+        return _norm_index_value(v)
 
     def ev_Subscript(self, node, path):
         base = self.ev(node.value, path)
@@ -335,6 +335,16 @@ class Evaluator(object):
                 and node.func.value.id not in self.module.aliases:
             rv = path.env[node.func.value.id]
             recv = rv if isinstance(rv, Rat) else (form.apply("pylist", [tuple(rv)]) if isinstance(rv, list) and all(isinstance(x, Rat) for x in rv) else None)
+        if rname == "getattr" and len(args) == 2 and not kwargs and isinstance(args[0], Rat) and isinstance(args[1], Rat):
+            nm = args[1].as_atom()
+            if nm is not None and nm.func.startswith("str:") and not nm.args:
+                try:
+                    attr_name = ast.literal_eval(nm.func[4:])
+                except Exception:
+                    attr_name = None
+                if isinstance(attr_name, str) and attr_name.isidentifier():
+                    # getattr(x, 'name') with a literal name is x.name
+                    return self.ev(ast.copy_location(ast.Attribute(value=node.args[0], attr=attr_name, ctx=ast.Load()), node), path)
         self._event("call", path, node, name=rname or norm(node.func), args=args, kwargs=kwargs, recv=recv)
         call_event = self.events[-1] if self.record and self.events else None
         if self.call_hook is not None:
@@ -1011,6 +1021,35 @@ class Evaluator(object):
             o.env = p.env
             self.outcomes.append(o)
         return self.outcomes
+
+
+def _norm_index_value(v):
+    """An index built with slice(...) / tuple(...) objects in the same form as one written with colons: a[tuple((slice(None),
+    slice(k, None)))] is a[:, k:]."""
+    if isinstance(v, list):
+        return tuple(_norm_index_value(x) for x in v)
+    if not isinstance(v, Rat):
+        return v
+    at = v.as_atom()
+    if at is None:
+        return v
+    if at.func == "call:tuple" and len(at.args) == 1:
+        inner = at.args[0]
+        if isinstance(inner, tuple) and not (inner and isinstance(inner[0], str)):
+            return tuple(_norm_index_value(x) for x in inner)
+        pl = inner.as_atom("pylist") if isinstance(inner, Rat) else None
+        if pl is not None and pl.args and isinstance(pl.args[0], tuple):
+            return tuple(_norm_index_value(x) for x in pl.args[0])
+    if at.func == "call:slice" and 1 <= len(at.args) <= 3 and all(isinstance(a, Rat) for a in at.args):
+        def none(x):
+            return "None" if x.key() == "$None" else x
+        a = list(at.args)
+        if len(a) == 1:
+            return ("slice", "None", none(a[0]), "None")
+        if len(a) == 2:
+            return ("slice", none(a[0]), none(a[1]), "None")
+        return ("slice", none(a[0]), none(a[1]), none(a[2]))
+    return v
 
 
 def _loop_value(st, it, tag=""):
